@@ -16,6 +16,7 @@ use paseto_core::version::{Local, Public, Secret};
 use crate::backends::*;
 
 struct Prepared {
+    backend: &'static str,
     run: Box<dyn Fn()>,
 }
 
@@ -48,37 +49,108 @@ fn prepare_for<B: Backend>(out: &mut Vec<Prepared>) {
         v.into_iter().collect()
     };
     let h = B::VER.v();
-    out.push(Prepared {
-        run: Box::new(move || {
-            let nv = NoValidation::dangerous_no_validation;
-            // rejected at the cryptographic check
-            let _ = signed.parse::<SealedToken<V<B>, Public, Raw, Vec<u8>>>().and_then(|t| t.unseal(&wrong_pk, &[], &nv()));
-            let _ = encrypted.parse::<SealedToken<V<B>, Local, Raw, Vec<u8>>>().and_then(|t| t.unseal(&wrong_lk, &[], &nv()));
+    // each failing operation is its own step: the steps run in rotating order so that every one of
+    // them is, in turn, the LAST thing that happened before the case that follows
+    let mut steps: Vec<Box<dyn Fn()>> = Vec::new();
+    macro_rules! step {
+        ($body:expr) => {
+            steps.push(Box::new($body));
+        };
+    }
+    {
+        let (signed, wrong_pk) = (signed.clone(), wrong_pk.clone());
+        step!(move || {
+            let _ = signed.parse::<SealedToken<V<B>, Public, Raw, Vec<u8>>>().and_then(|t| t.unseal(&wrong_pk, &[], &NoValidation::dangerous_no_validation()));
+        });
+    }
+    {
+        let (encrypted, wrong_lk) = (encrypted.clone(), wrong_lk.clone());
+        step!(move || {
+            let _ = encrypted.parse::<SealedToken<V<B>, Local, Raw, Vec<u8>>>().and_then(|t| t.unseal(&wrong_lk, &[], &NoValidation::dangerous_no_validation()));
+        });
+    }
+    {
+        let (signed, pk, lk) = (signed.clone(), sk.public_key(), lk.clone());
+        step!(move || {
             if B::VER.has_assertion() {
-                let _ = signed.parse::<SealedToken<V<B>, Public, Raw, Vec<u8>>>().and_then(|t| t.unseal(&sk.public_key(), b"other assertion", &nv()));
+                let _ = signed.parse::<SealedToken<V<B>, Public, Raw, Vec<u8>>>().and_then(|t| t.unseal(&pk, b"other assertion", &NoValidation::dangerous_no_validation()));
             } else {
                 // versions without implicit assertions refuse one when sealing
                 let _ = UnsealedToken::<V<B>, Local, Raw>::new(Raw(b"x".to_vec())).seal(&lk, b"assertion");
             }
+        });
+    }
+    {
+        let (pie, wrong_lk) = (pie.clone(), wrong_lk.clone());
+        step!(move || {
             let _ = pie.parse::<PieWrappedKey<V<B>, Secret>>().and_then(|w| w.unwrap(&wrong_lk));
+        });
+    }
+    {
+        let pw = pw.clone();
+        step!(move || {
             let _ = pw.parse::<PasswordWrappedKey<V<B>, Local>>().and_then(|w| w.unwrap(b"wrong"));
-            if B::VER != crate::refmodel::Ver::V1 {
-                // (v1: an RSA-4096 private operation per perturbation would dominate every check)
-                let _ = sealed_bad.parse::<SealedKey<V<B>>>().and_then(|s| s.unseal(&pke_sk));
-            }
-            // rejected at parse time
+        });
+    }
+    if B::VER != crate::refmodel::Ver::V1 {
+        // (v1: an RSA-4096 private operation per perturbation would dominate every check)
+        step!(move || {
+            let _ = sealed_bad.parse::<SealedKey<V<B>>>().and_then(|s| s.unseal(&pke_sk));
+        });
+    }
+    {
+        let lk = lk.clone();
+        step!(move || {
             let _ = format!("{h}.public.!!!!").parse::<SealedToken<V<B>, Public, Raw, Vec<u8>>>();
-            let _ = format!("{h}.local.AAAA").parse::<SealedToken<V<B>, Local, Raw, Vec<u8>>>().and_then(|t| t.unseal(&lk, &[], &nv()));
+            let _ = format!("{h}.local.AAAA").parse::<SealedToken<V<B>, Local, Raw, Vec<u8>>>().and_then(|t| t.unseal(&lk, &[], &NoValidation::dangerous_no_validation()));
+        });
+    }
+    {
+        // malformed and well-formed-but-invalid key material of every kind
+        let pk_raw = key_bytes(&sk.public_key());
+        step!(move || {
             let _ = key_from_bytes::<V<B>, Secret>(&[0u8; 7]);
-            let _ = key_from_bytes::<V<B>, Public>(&[0xffu8; 49]);
+            let _ = key_from_bytes::<V<B>, Secret>(&vec![0xffu8; key_bytes_len_secret::<B>()]);
+            let _ = key_from_bytes::<V<B>, Secret>(&vec![0u8; key_bytes_len_secret::<B>()]);
+            // a public key of the right shape that is not a point: same length, body perturbed
+            for d in 1u8..=6 {
+                let mut bad = pk_raw.clone();
+                let n = bad.len();
+                if n > 4 && B::VER != crate::refmodel::Ver::V1 {
+                    bad[n - 1] = bad[n - 1].wrapping_add(d);
+                    bad[n / 2] ^= d;
+                    let _ = key_from_bytes::<V<B>, Public>(&bad);
+                }
+            }
+        });
+    }
+    let counter = std::cell::Cell::new(0usize);
+    out.push(Prepared {
+        backend: B::NAME,
+        run: Box::new(move || {
+            let n = steps.len();
+            let start = counter.get() % n;
+            counter.set(counter.get() + 1);
+            for i in 0..n {
+                (steps[(start + 1 + i) % n])();
+            }
         }),
     });
+}
+
+fn key_bytes_len_secret<B: Backend>() -> usize {
+    match B::VER {
+        crate::refmodel::Ver::V3 => 48,
+        crate::refmodel::Ver::V1 => 64,
+        _ => 64,
+    }
 }
 
 fn prepare_json(out: &mut Vec<Prepared>) {
     use paseto_core::encodings::{Footer, Payload};
     use paseto_json::{Json, RegisteredClaims};
     out.push(Prepared {
+        backend: "json",
         run: Box::new(|| {
             let mut m = std::collections::BTreeMap::new();
             m.insert((1u8, 2u8), 3u8);
@@ -96,6 +168,16 @@ fn prepare_json(out: &mut Vec<Prepared>) {
 /// library code) and independent of the per-case seeded RNG position only in what it *checks*:
 /// it checks nothing, it only leaves whatever the error paths leave.
 pub fn rejected_everywhere() {
+    rejected(None)
+}
+
+/// The failing operations of one back end only (used where a check wants the failure to be the
+/// operation immediately before the one it examines).
+pub fn rejected_on(backend: &'static str) {
+    rejected(Some(backend))
+}
+
+fn rejected(only: Option<&'static str>) {
     if BUSY.with(|b| std::mem::replace(&mut *b.borrow_mut(), true)) {
         return;
     }
@@ -108,9 +190,22 @@ pub fn rejected_everywhere() {
                 *p.borrow_mut() = Some(v);
             }
             for x in p.borrow().as_ref().unwrap() {
-                (x.run)();
+                if only.map(|o| o == x.backend).unwrap_or(true) {
+                    (x.run)();
+                }
             }
         });
     });
     BUSY.with(|b| *b.borrow_mut() = false);
+}
+
+/// Build and run the history without swallowing panics; prints the back ends covered.
+pub fn self_test() {
+    let mut v = Vec::new();
+    crate::for_backends!(B => prepare_for::<B>(&mut v));
+    prepare_json(&mut v);
+    for x in &v {
+        (x.run)();
+        println!("perturb: {} ok", x.backend);
+    }
 }
